@@ -11,18 +11,27 @@ RULE = ('cases are (table, transformation): tables exhaustive n*m <= 12 (quick) 
         '(<= 30 concepts, 200 seed-derived pairs above) and relations() (symmetric kinds as unordered pairs) are equal '
         'under permutation; under transposition concepts are swapped pairs, covers reversed, join and meet exchanged; '
         'duplicated row => same family of intents, duplicated or universal column => same family of extents, same '
-        'count; fast_generate_from and fcbo_dual are compared under the same transformations. A case is non-trivial '
+        'count; fast_generate_from and fcbo_dual are compared under the same transformations; finally the ORIGINAL '
+        'context object is observed again and must answer as before the transformed copies were built. A case is non-trivial '
         'when the table has >= 4 concepts and the permuted cell matrix differs from the original one.')
 ASSUMPTIONS = ['metamorphic relations only; no model of FCA is involved', 'bitsets package behaves as documented']
 
 SYMMETRIC = {'equivalent', 'complement', 'incompatible', 'subcontrary', 'orthogonal'}
 
 
-def observe(ctx, q, o, p, bools, tag):
+def observe(ctx, q, o, p, bools, tag, keep=None):
     """Label-level statements about the lattice of (o, p, bools)."""
     import concepts
-    from concepts import algorithms
     context = ctx.call(tag + 'Context()', q, concepts.Context, o, p, bools)
+    if keep is not None:
+        keep.append(context)
+    return observe_context(ctx, q, context, tag)
+
+
+def observe_context(ctx, q, context, tag):
+    """The same statements for an existing context object (its cached lattice is reused)."""
+    from concepts import algorithms
+    o, p = context.objects, context.properties
     lat = ctx.call(tag + 'lattice', q, lambda: context.lattice)
     members = list(lat)
     fs = frozenset
@@ -47,8 +56,11 @@ def observe(ctx, q, o, p, bools, tag):
     for r in ctx.call(tag + 'relations', q, context.relations):
         rel.add((r.kind, fs((r.left, r.right))) if r.kind in SYMMETRIC else (r.kind, r.left, r.right))
     obs['relations'] = rel
-    obs['fcbo'] = sorted((sorted(e.members()), sorted(i.members())) for e, i in algorithms.fast_generate_from(context))
-    obs['dual'] = sorted((sorted(e.members()), sorted(i.members())) for e, i in algorithms.fcbo_dual(context))
+    obs['lookup'] = {(x, key[id(ctx.call(tag + 'lattice[]', q, lat.__getitem__, (x,)))]) for x in list(o) + list(p)}
+    obs['fcbo'] = ctx.call(tag + 'fast_generate_from', q, lambda: sorted(
+        (sorted(e.members()), sorted(i.members())) for e, i in algorithms.fast_generate_from(context)))
+    obs['dual'] = ctx.call(tag + 'fcbo_dual', q, lambda: sorted(
+        (sorted(e.members()), sorted(i.members())) for e, i in algorithms.fcbo_dual(context)))
     both = sorted((sorted(e), sorted(i)) for e, i in obs['concepts'])
     ctx.check(obs['fcbo'] == both and obs['dual'] == both, tag + 'generators-vs-lattice', q,
               'FCbO generators disagree with the lattice')
@@ -67,7 +79,8 @@ def check_one(case, ctx, deep):
     bools = gen.bools_of(case)
     rnd = gen._random.Random(repr((case['r'], n, m, ctx.seed)))
     q = lambda: plain
-    base = observe(ctx, q, o, p, bools, '')
+    originals = []
+    base = observe(ctx, q, o, p, bools, '', keep=originals)
     big = base['n'] >= 4
     recorded = False
     # -- permutations
@@ -83,7 +96,7 @@ def check_one(case, ctx, deep):
         changed = b2 != bools
         ctx.case(qq, big and changed, ('permute-changed',) if changed else ('permute-symmetric',))
         got = observe(ctx, qq, o2, p2, b2, 'permuted/')
-        for what in ('concepts', 'covers', 'lower', 'join', 'meet', 'relations', 'fcbo', 'dual'):
+        for what in ('concepts', 'covers', 'lower', 'join', 'meet', 'relations', 'fcbo', 'dual', 'lookup'):
             ctx.check(got[what] == base[what], 'permute/' + what, qq,
                       lambda: f'{what} changed under row/column permutation {rp} {cp}')
         if not deep and t == 0 and n * m > 6:
@@ -137,6 +150,11 @@ def check_one(case, ctx, deep):
     got = observe(ctx, qq, o, p2, b2, 'full-col/')
     ctx.check({c[0] for c in got['concepts']} == extents and got['n'] == base['n'], 'full-col', qq,
               'an all-true column changed the family of extents or the count')
+    # -- the original context object, queried again after all the transformed ones were built
+    again = observe_context(ctx, q, originals[0], 'original-again/')
+    for what in base:
+        ctx.check(again[what] == base[what], 'original-changed/' + what, q,
+                  lambda: f'{what} of the ORIGINAL context changed after transformed copies (same labels on one side) were built')
 
 
 def plan(tier, seed):
